@@ -52,7 +52,7 @@ def run(tier):
     else:
         chosen = scen
         rnd.shuffle(chosen)
-        chosen = chosen[:12000]
+        chosen = chosen[:4000]
     real = [tdsfam.to_real(s, extra_tds=(dict(refresh_event=1) if k % 5 == 4 else None)) for k, s in enumerate(chosen)]
     for k, sc in enumerate(real):
         if k % 5 == 4:
@@ -67,14 +67,14 @@ def run(tier):
         fa, al = co + fa[:70], al[:60]
     real += [tdsfam.fault_to_real(f) for f in fa] + [tdsfam.alter_to_real(a) for a in al]
     if not quick:
-        real += [tdsfam.to_real(s, case="smib/SMIB.json") for s in chosen[:1500]]
+        real += [tdsfam.to_real(s, case="smib/SMIB.json") for s in chosen[:500]]
     out = tdsfam.run_and_validate(real, rep, label="model scenarios")
     tdsfam.judge(PID, out, rep)
     rep.extra["model_scenarios_replayed"] = len(real)
     rep.exhaustive = False
 
     # 3. float schedules and stock cases ----------------------------------------------------
-    fl = tdsfam.known_float_regressions() + tdsfam.late_schedules() + tdsfam.float_schedules(40 if quick else 1500, rnd, tf_max=2.0 if quick else 4.0)
+    fl = tdsfam.known_float_regressions() + tdsfam.late_schedules() + tdsfam.float_schedules(40 if quick else 600, rnd, tf_max=2.0 if quick else 4.0)
     out2 = tdsfam.run_and_validate(fl, rep, label="float schedules")
     tdsfam.judge(PID, out2, rep)
     st = tdsfam.stock_scenarios(limit=4 if quick else None)
@@ -89,7 +89,7 @@ def run(tier):
             rep.sample(dict(scenario=tdsfam._strip(sc), verdict=o["verdict"], first_events=o["trace"]["ev"][:6]))
     rep.rule = ("scenario = event schedule x segmentation x stepping mode x failure plan; model scenarios are enumerated by "
                 "TLC (Scen_TDSLoop) and %s; float schedules are seeded random; non-trivial = at least one event fired, "
-                "a step was rejected or the run was resumed" % ("sampled with VERIF_SEED" if quick else "replayed up to 12000"))
+                "a step was rejected or the run was resumed" % ("sampled with VERIF_SEED" if quick else "replayed up to 4000"))
     rep.assume("1 model time unit = 1e-5 s when replayed; Newton outcome classes are abstracted in the model")
     rep.assume("event effects observed through Toggle targets' u, Fault.uf, Alter targets and the destination parameter of TimeSeries rows")
     return rep.finish()
